@@ -111,21 +111,28 @@ var c10Plain = regexp.MustCompile(`^[ \t\n\v\f\r]*([0-9]+)[ \t\n\v\f\r]*([A-Za-z
 var c10Factor = map[string]int64{"b": 1, "bps": 1, "k": 1e3, "kb": 1e3, "kbps": 1e3, "m": 1e6, "mb": 1e6, "mbps": 1e6,
 	"g": 1e9, "gb": 1e9, "gbps": 1e9, "t": 1e12, "tb": 1e12, "tbps": 1e12}
 
-// c10Reading: what a person means by an ASCII bandwidth string: <number><unit> with
-// optional blanks = number x unit bits per second = number x unit / 8 bytes per second,
-// computed exactly. ok=false: not of that form (must be refused).
-func c10Reading(s string) (exact *big.Int, ok bool) {
+var c10Two64 = new(big.Int).Lsh(big.NewInt(1), 64)
+
+// c10Reading: an ASCII bandwidth string read independently of the code (regexp + big.Int):
+// <number><unit> with optional blanks. ok=false: not of that form (must be refused).
+// fits: the number itself fits uint64 (otherwise strconv refuses it). want: number x unit as
+// the uint64 product the program computes (modulo 2^64), divided by 8; exact: number x unit,
+// unreduced.
+func c10Reading(s string) (want uint64, exact *big.Int, fits, ok bool) {
 	m := c10Plain.FindStringSubmatch(s)
 	if m == nil {
-		return nil, false
+		return 0, nil, false, false
 	}
 	f, known := c10Factor[strings.ToLower(m[2])]
 	if !known {
-		return nil, false
+		return 0, nil, false, false
 	}
 	n, _ := new(big.Int).SetString(m[1], 10)
-	n.Mul(n, big.NewInt(f))
-	return n, true
+	fits = n.IsUint64()
+	exact = new(big.Int).Mul(n, big.NewInt(f))
+	w := new(big.Int).Mod(exact, c10Two64)
+	w.Div(w, big.NewInt(8))
+	return w.Uint64(), exact, fits, true
 }
 
 func c10IsASCII(s string) bool {
@@ -137,23 +144,23 @@ func c10IsASCII(s string) bool {
 	return true
 }
 
-// c10BpsOracle: model-free clauses on one StringToBps result.
+// c10BpsOracle: model-free clauses on one StringToBps result. The product is compared with
+// uint64 (wrapping) semantics: that an over-large value wraps is noticed, not claimed.
 func c10BpsOracle(s string, v uint64, err error) []string {
 	var out []string
 	if !c10IsASCII(s) {
 		return nil
 	}
-	bits, ok := c10Reading(s)
+	want, exact, fits, ok := c10Reading(s)
 	switch {
 	case !ok && err == nil:
 		out = append(out, fmt.Sprintf("%q is not <number><unit> but was accepted as %d B/s", s, v))
-	case ok && err == nil:
-		want := new(big.Int).Div(bits, big.NewInt(8))
-		if !want.IsUint64() || want.Uint64() != v || !bits.IsUint64() {
-			out = append(out, fmt.Sprintf("%q means %s bit/s = %s B/s but was accepted as %d B/s (not number x unit / 8: wrong factor, or the uint64 product wrapped)", s, bits, want, v))
-		}
-	case ok && err != nil && bits.IsUint64():
-		out = append(out, fmt.Sprintf("%q means %s bit/s, which fits, but was refused: %v", s, bits, err))
+	case ok && !fits && err == nil:
+		out = append(out, fmt.Sprintf("%q: the number does not fit uint64 but was accepted as %d B/s", s, v))
+	case ok && fits && err == nil && v != want:
+		out = append(out, fmt.Sprintf("%q means %s bit/s; as a uint64 product / 8 that is %d B/s, but it was accepted as %d B/s", s, exact, want, v))
+	case ok && fits && err != nil:
+		out = append(out, fmt.Sprintf("%q is <number><unit> with a number that fits, but was refused: %v", s, err))
 	}
 	return out
 }
@@ -249,11 +256,8 @@ func (c *rateCfg) Run(op string) vh.Result {
 				}
 				continue
 			}
-			if bits, ok := c10Reading(p.s); ok && c10IsASCII(p.s) {
-				want := new(big.Int).Div(bits, big.NewInt(8))
-				if !want.IsUint64() || want.Uint64() != p.got {
-					res.Oracle = append(res.Oracle, fmt.Sprintf("bandwidth.%s %q means %s B/s but the core limit is %d", p.name, p.s, want, p.got))
-				}
+			if want, exact, fits, ok := c10Reading(p.s); ok && fits && c10IsASCII(p.s) && want != p.got {
+				res.Oracle = append(res.Oracle, fmt.Sprintf("bandwidth.%s %q means %s bit/s = %d B/s (uint64 product / 8) but the core limit is %d", p.name, p.s, exact, want, p.got))
 			}
 			if f[0] == "acfg" && p.got != 0 && p.got < 65536 {
 				res.Oracle = append(res.Oracle, fmt.Sprintf("server accepted bandwidth.%s %q = %d B/s, below the 65536 floor", p.name, p.s, p.got))
